@@ -1,1 +1,732 @@
-// harness module for C19 (not written yet)
+// C19 daemon-level harness (sub-module of the main.rs hook, see main_hook.rs; the private converters are
+// reached through the hook modules c19_bmp.rs / c19_mrt.rs included at the end of daemon/src/bmp.rs / mrt.rs).
+//
+// Superset of the packet-level harness (harness/pt/src/bin/c19.rs, shared code in harness/common/c19_core.rs):
+//   (dcase (tbl ...) (items ITEM...))     ITEM = any packet-level REC, or an EVENT converted by the REAL daemon code:
+//     (ev-rm POST SRC FAM AP NLRIS ATTRS NH TS EMB)        live AdjRibIn / AdjRibInPost event -> adj_rib_in_to_bmp_update
+//     (ev-out POST (peer IP ASN ID) FAM AP (PID xNLRI) ATTRS NH TS EMB)   AdjRibOutPre/Post -> adj_rib_out_to_bmp_update
+//     (ev-loc FAM xNLRI ATTRS NH TS xRID ASN EMB)          LocRib event -> loc_rib_to_bmp
+//     (ev-mrt SRC FAM AP NLRIS ATTRS NH TS EMB)            AdjRibIn event -> adj_rib_in_to_mrt
+//     (ev-down (peer IP ASN ID) UPTIME REASON EMB)         SessionDownReason -> session_down_to_bmp
+//     (ev-flush (peer IP ASN ID) UPTS POST (chgs (chg SRC FAM AP NLRIS ATTRS NH TS)...) (embs EMB...))
+//                                                          apply_snapshot* ; flush_peer_snapshot (messages sorted)
+//     (ev-dump xRID (chg4 CHG...) (chg6 CHG...))           dump_table on a TableManager holding exactly these paths;
+//                                                          CHG = (PFX (path SRC NH ATTRS)...) in collect_loc_rib_paths order
+//   SRC = (src IP IP RASN LASN RID) ; ATTRS = none | (ATTR...) ; REASON = none|hold|fsm|admin|io|(remote MON)|(local MON)
+//   The per-peer headers of the live events are built in the body of `BmpClient::serve` (not a function): the
+//   harness transcribes those `PerPeerHeader::new(..)` calls (trusted glue, listed in checks/c19.py).
+// Modes: VERIF_PROP=C19 VERIF_IN VERIF_OUT [VERIF_MODE=gen VERIF_SEED VERIF_N VERIF_TIER].
+#![allow(dead_code, unused_imports)]
+
+#[path = "/verif/harness/common/sexp.rs"]
+mod sexp;
+#[path = "/verif/harness/common/c19_core.rs"]
+mod c19core;
+
+use c19core::*;
+use rustybgp_packet::bgp::{self, Attribute, Family, Nexthop, Nlri, PathNlri};
+use rustybgp_packet::{bmp, mrt};
+use rustybgp_table as table;
+use sexp::{Rng, Term};
+use std::net::{IpAddr, Ipv4Addr};
+use std::panic::{AssertUnwindSafe, catch_unwind};
+use std::sync::Arc;
+
+use crate::table_manager::{AdjRibInChange, AdjRibOutChange, LocRibChange};
+
+fn src_of(t: &Term) -> Option<Arc<table::Source>> {
+    let a = t.tagged("src")?;
+    if a.len() != 5 {
+        return None;
+    }
+    Some(Arc::new(table::Source::new(
+        ip_of(&a[0])?,
+        ip_of(&a[1])?,
+        u32_of(&a[2])?,
+        u32_of(&a[3])?,
+        Ipv4Addr::from(u32_of(&a[4])?),
+        table::PeerRole::Ebgp,
+    )))
+}
+
+fn opt_attrs_of(t: &Term) -> Option<Option<Arc<Vec<Attribute>>>> {
+    if t.as_atom() == Some("none") {
+        return Some(None);
+    }
+    let v = attrs_of(t)?;
+    if attrs_term(&v) != *t {
+        return None;
+    }
+    Some(Some(Arc::new(v)))
+}
+
+/// SRC FAM AP NLRIS ATTRS NH TS
+fn change_of(a: &[Term]) -> Option<AdjRibInChange> {
+    if a.len() != 7 {
+        return None;
+    }
+    let family = fam_of(&a[1])?;
+    let nlris = ents_of(family, &a[3])?;
+    if ents_term(&nlris) != a[3] {
+        return None;
+    }
+    Some(AdjRibInChange {
+        source: src_of(&a[0])?,
+        family,
+        addpath: a[2].as_bool()?,
+        nlris,
+        attrs: opt_attrs_of(&a[4])?,
+        nexthop: nh_of(&a[5])?,
+        timestamp: u32_of(&a[6])?,
+    })
+}
+
+fn peer_of(t: &Term) -> Option<(IpAddr, u32, u32)> {
+    let a = t.tagged("peer")?;
+    if a.len() != 3 {
+        return None;
+    }
+    Some((ip_of(&a[0])?, u32_of(&a[1])?, u32_of(&a[2])?))
+}
+
+fn upd_tags(m: &bgp::Message, ap: bool, emb: &Option<Vec<u8>>, tags: &mut Vec<Term>) {
+    tags.push(Term::atom(if ap { "ap-on" } else { "ap-off" }));
+    tags.push(Term::atom(mon_head(&msg_term(m))));
+    emb_tags(emb, tags);
+}
+
+fn with_emb(kind: &str, a: &[Term], emb: &Option<Vec<u8>>) -> Term {
+    let mut v: Vec<Term> = a[..a.len() - 1].to_vec();
+    v.push(emb_term(emb));
+    Term::tag(kind, v)
+}
+
+fn build_item(t: &Term) -> Option<Built> {
+    let Some(l) = t.as_list() else { return build(t) };
+    let Some(kind) = l.first().and_then(|k| k.as_atom()) else { return None };
+    let a = &l[1..];
+    let mut tags = vec![Term::atom(kind)];
+    match kind {
+        "ev-rm" if a.len() == 9 => {
+            let post = a[0].as_bool()?;
+            let change = change_of(&a[1..8])?;
+            // BmpClient::serve, `Some(BgpEvent::AdjRibIn(change))` / `AdjRibInPost` arms
+            let update = crate::bmp::verif_c19_bmp::rm_in(&change);
+            let header = bmp::PerPeerHeader::new(
+                if post { bmp::Message::PEER_FLAG_POST_POLICY } else { 0 },
+                change.source.remote_asn,
+                Ipv4Addr::from(change.source.router_id),
+                0,
+                change.source.remote_addr,
+                change.timestamp,
+            );
+            let emb = standalone(&[&update], change.addpath);
+            tags.push(Term::atom(if change.source.remote_addr.is_ipv6() { "peer-v6" } else { "peer-v4" }));
+            tags.push(Term::atom(if post { "post" } else { "pre" }));
+            upd_tags(&update, change.addpath, &emb, &mut tags);
+            let real = Real::Bmp(bmp::Message::RouteMonitoring { header, update, addpath: change.addpath });
+            Some(Built { term: with_emb(kind, a, &emb), real, embs: emb.into_iter().map(|e| (change.addpath, e)).collect(), tags })
+        }
+        "ev-out" if a.len() == 9 => {
+            let post = a[0].as_bool()?;
+            let (peer_addr, peer_asn, peer_id) = peer_of(&a[1])?;
+            let family = fam_of(&a[2])?;
+            let addpath = a[3].as_bool()?;
+            let nl = ents_of(family, &Term::list(vec![a[4].clone()]))?;
+            let change = AdjRibOutChange {
+                peer_addr,
+                peer_asn,
+                peer_id,
+                family,
+                addpath,
+                nlri: nl[0].clone(),
+                attrs: opt_attrs_of(&a[5])?,
+                nexthop: nh_of(&a[6])?,
+                timestamp: u32_of(&a[7])?,
+            };
+            // BmpClient::serve, `AdjRibOutPre` / `AdjRibOutPost` arms
+            let update = crate::bmp::verif_c19_bmp::rm_out(&change);
+            let header = bmp::PerPeerHeader::new(
+                if post { bmp::Message::PEER_FLAG_ADJ_RIB_OUT | bmp::Message::PEER_FLAG_POST_POLICY } else { bmp::Message::PEER_FLAG_ADJ_RIB_OUT },
+                change.peer_asn,
+                Ipv4Addr::from(change.peer_id),
+                0,
+                change.peer_addr,
+                change.timestamp,
+            );
+            let emb = standalone(&[&update], addpath);
+            tags.push(Term::atom(if peer_addr.is_ipv6() { "peer-v6" } else { "peer-v4" }));
+            tags.push(Term::atom(if post { "post" } else { "pre" }));
+            upd_tags(&update, addpath, &emb, &mut tags);
+            let real = Real::Bmp(bmp::Message::RouteMonitoring { header, update, addpath });
+            Some(Built { term: with_emb(kind, a, &emb), real, embs: emb.into_iter().map(|e| (addpath, e)).collect(), tags })
+        }
+        "ev-loc" if a.len() == 8 => {
+            let family = fam_of(&a[0])?;
+            let nl = ents_of(family, &Term::list(vec![Term::list(vec![Term::nat(0u8), a[1].clone()])]))?;
+            let change = LocRibChange {
+                family,
+                net: nl[0].nlri.clone(),
+                attr: opt_attrs_of(&a[2])?,
+                nexthop: nh_of(&a[3])?,
+                timestamp: u32_of(&a[4])?,
+            };
+            let msg = crate::bmp::verif_c19_bmp::loc_rib(&change, v4_of(&a[5])?, u32_of(&a[6])?);
+            let bmp::Message::RouteMonitoring { update, addpath, .. } = &msg else { return None };
+            let emb = standalone(&[update], *addpath);
+            upd_tags(update, *addpath, &emb, &mut tags);
+            let ap = *addpath;
+            Some(Built { term: with_emb(kind, a, &emb), real: Real::Bmp(msg), embs: emb.into_iter().map(|e| (ap, e)).collect(), tags })
+        }
+        "ev-mrt" if a.len() == 8 => {
+            let change = change_of(&a[0..7])?;
+            let msg = crate::mrt::verif_c19_mrt::to_mrt(&change);
+            let mrt::Message::Mp { body, addpath, .. } = &msg;
+            let emb = standalone(&[body], *addpath);
+            tags.push(Term::atom(if change.source.remote_addr.is_ipv6() { "afi-v6" } else { "afi-v4" }));
+            upd_tags(body, *addpath, &emb, &mut tags);
+            let ap = *addpath;
+            Some(Built { term: with_emb(kind, a, &emb), real: Real::Mrt(msg), embs: emb.into_iter().map(|e| (ap, e)).collect(), tags })
+        }
+        "ev-down" if a.len() == 4 => {
+            let (peer_addr, peer_asn, peer_id) = peer_of(&a[0])?;
+            let uptime = a[1].as_u64()?;
+            use crate::fsm::SessionDownReason as R;
+            let notif_of = |m: &Term| -> Option<bgp::Message> {
+                let msg = msg_of(m)?;
+                if msg_term(&msg) != *m || !matches!(msg, bgp::Message::Notification(_)) {
+                    return None;
+                }
+                Some(msg)
+            };
+            let reason = match &a[2] {
+                Term::Atom(s) => match s.as_str() {
+                    "none" => None,
+                    "hold" => Some(R::HoldTimerExpired),
+                    "fsm" => Some(R::FsmError),
+                    "admin" => Some(R::AdminShutdown),
+                    "io" => Some(R::IoError),
+                    _ => return None,
+                },
+                Term::List(r) if r.len() == 2 => match r[0].as_atom()? {
+                    "remote" => Some(R::RemoteNotification(notif_of(&r[1])?)),
+                    "local" => Some(R::LocalNotification(notif_of(&r[1])?)),
+                    _ => return None,
+                },
+                _ => return None,
+            };
+            tags.push(Term::atom(format!("sess-{}", a[2].head()?)));
+            // event/mod.rs: `reason: crate::bmp::session_down_to_bmp(..)`; BmpClient::serve `PeerDown` arm
+            let reason = crate::bmp::session_down_to_bmp(reason);
+            let emb = match &reason {
+                bmp::PeerDownReason::LocalNotification(m) | bmp::PeerDownReason::RemoteNotification(m) => Some(standalone(&[m], false)),
+                _ => None,
+            };
+            let header = bmp::PerPeerHeader::new(0, peer_asn, Ipv4Addr::from(peer_id), 0, peer_addr, uptime as u32);
+            let et = match &emb {
+                None => Term::atom("-"),
+                Some(e) => emb_term(e),
+            };
+            let mut v: Vec<Term> = a[..3].to_vec();
+            v.push(et);
+            let embs = emb.into_iter().flatten().map(|e| (false, e)).collect();
+            Some(Built { term: Term::tag(kind, v), real: Real::Bmp(bmp::Message::PeerDown { header, reason }), embs, tags })
+        }
+        "ev-dump" if a.len() == 3 => build_dump(t, a),
+        "ev-flush" if a.len() == 5 => build_flush(a),
+        k if k.starts_with("ev-") => None,
+        _ => build(t),
+    }
+}
+
+
+// ------------------------------------------------------------------ dump_table
+struct DPath {
+    src: Arc<table::Source>,
+    nh: Option<Nexthop>,
+    attrs: Arc<Vec<Attribute>>,
+}
+struct DChg {
+    net: Nlri,
+    paths: Vec<DPath>,
+}
+
+fn pfx_nlri(t: &Term) -> Option<Nlri> {
+    let p = t.tagged("pfx")?;
+    if p.len() != 2 {
+        return None;
+    }
+    let mask = u8_of(&p[0])?;
+    let ab = p[1].as_bytes()?;
+    match ab.len() {
+        4 if mask <= 32 => Some(Nlri::V4(bgp::Ipv4Net { addr: Ipv4Addr::from(<[u8; 4]>::try_from(&ab[..]).ok()?), mask })),
+        16 if mask <= 128 => Some(Nlri::V6(bgp::Ipv6Net { addr: std::net::Ipv6Addr::from(<[u8; 16]>::try_from(&ab[..]).ok()?), mask })),
+        _ => None,
+    }
+}
+fn pfx_term(n: &Nlri) -> Term {
+    match n {
+        Nlri::V4(x) => Term::tag("pfx", vec![Term::nat(x.mask), Term::bytes(&x.addr.octets())]),
+        Nlri::V6(x) => Term::tag("pfx", vec![Term::nat(x.mask), Term::bytes(&x.addr.octets())]),
+        _ => Term::atom("?"),
+    }
+}
+fn src_term(s: &table::Source) -> Term {
+    Term::tag("src", vec![ip_term(&s.remote_addr), ip_term(&s.local_addr), Term::nat(s.remote_asn), Term::nat(s.local_asn), Term::nat(s.router_id)])
+}
+fn chgs_of(t: &Term, key: &str) -> Option<Vec<DChg>> {
+    let mut out = vec![];
+    for c in t.tagged(key)? {
+        let c = c.as_list()?;
+        let net = pfx_nlri(c.first()?)?;
+        let mut paths = vec![];
+        for p in &c[1..] {
+            let p = p.tagged("path")?;
+            if p.len() != 3 {
+                return None;
+            }
+            let attrs = attrs_of(&p[2])?;
+            if attrs_term(&attrs) != p[2] {
+                return None;
+            }
+            paths.push(DPath { src: src_of(&p[0])?, nh: nh_of(&p[1])?, attrs: Arc::new(attrs) });
+        }
+        out.push(DChg { net, paths });
+    }
+    Some(out)
+}
+fn chgs_term(key: &str, v: &[table::NlriChange]) -> Term {
+    Term::tag(
+        key,
+        v.iter()
+            .map(|c| {
+                let mut l = vec![pfx_term(&c.net)];
+                for p in c.current_paths.iter() {
+                    l.push(Term::tag("path", vec![src_term(&p.source), nh_term(&p.nexthop), attrs_term(&p.attr)]));
+                }
+                Term::list(l)
+            })
+            .collect(),
+    )
+}
+
+/// zero the header timestamps and the per-entry originated times (SystemTime::now()) of a TABLE_DUMP_V2 stream
+fn zero_td_times(b: &mut [u8]) -> bool {
+    let rd16 = |b: &[u8], p: usize| ((b[p] as usize) << 8) | b[p + 1] as usize;
+    let mut p = 0;
+    while p + 12 <= b.len() {
+        for x in &mut b[p..p + 4] {
+            *x = 0;
+        }
+        let st = rd16(b, p + 6);
+        let len = ((rd16(b, p + 8)) << 16) | rd16(b, p + 10);
+        let (body, end) = (p + 12, p + 12 + len);
+        if end > b.len() {
+            return false;
+        }
+        if st == 2 || st == 4 {
+            if body + 5 > end {
+                return false;
+            }
+            let mut q = body + 4;
+            let plen = b[q] as usize;
+            q += 1 + plen.div_ceil(8);
+            if q + 2 > end {
+                return false;
+            }
+            let cnt = rd16(b, q);
+            q += 2;
+            for _ in 0..cnt {
+                if q + 8 > end {
+                    return false;
+                }
+                for x in &mut b[q + 2..q + 6] {
+                    *x = 0;
+                }
+                q += 8 + rd16(b, q + 6);
+            }
+        }
+        p = end;
+    }
+    p == b.len()
+}
+
+static DUMP_SEQ: std::sync::atomic::AtomicU64 = std::sync::atomic::AtomicU64::new(0);
+
+fn build_dump(_t: &Term, a: &[Term]) -> Option<Built> {
+    let rid = v4_of(&a[0])?;
+    let c4 = chgs_of(&a[1], "chg4")?;
+    let c6 = chgs_of(&a[2], "chg6")?;
+    // a TableManager that holds exactly these paths (no policy, no kernel, no subscriber), inserted in case order
+    let tables: crate::table_manager::TableHandle = Arc::new(crate::table_manager::TableManager::new(2));
+    let mut inserted: Vec<String> = vec![];
+    for (fam, chgs) in [(Family::IPV4, &c4), (Family::IPV6, &c6)] {
+        for c in chgs.iter() {
+            match (&c.net, fam) {
+                (Nlri::V4(_), Family::IPV4) | (Nlri::V6(_), Family::IPV6) => {}
+                _ => return None,
+            }
+            for p in &c.paths {
+                // one path per (peer, prefix): no add-path receive in the dump scenarios
+                tables.insert_route(p.src.clone(), fam, PathNlri { path_id: 0, nlri: c.net.clone() }, p.nh, p.attrs.clone(), None, 0);
+                inserted.push(format!("{} {} {} {}", pfx_term(&c.net), src_term(&p.src), nh_term(&p.nh), attrs_term(&p.attrs)));
+            }
+        }
+    }
+    // the order in which dump_table will see them
+    let r4 = tables.collect_loc_rib_paths(Family::IPV4);
+    let r6 = tables.collect_loc_rib_paths(Family::IPV6);
+    let mut collected: Vec<String> = vec![];
+    for c in r4.iter().chain(r6.iter()) {
+        for p in c.current_paths.iter() {
+            collected.push(format!("{} {} {} {}", pfx_term(&c.net), src_term(&p.source), nh_term(&p.nexthop), attrs_term(&p.attr)));
+        }
+    }
+    inserted.sort();
+    collected.sort();
+    if inserted != collected {
+        return None; // duplicate (peer, prefix) in the case, or the table did not keep a path: not a dump scenario
+    }
+    let term = Term::tag("ev-dump", vec![a[0].clone(), chgs_term("chg4", &r4), chgs_term("chg6", &r6)]);
+    // the real dump
+    let path = format!(
+        "{}.dump{}-{}",
+        std::env::var("VERIF_OUT").unwrap_or_else(|_| "/tmp/c19".into()),
+        std::process::id(),
+        DUMP_SEQ.fetch_add(1, std::sync::atomic::Ordering::Relaxed)
+    );
+    let rt = tokio::runtime::Builder::new_current_thread().enable_all().build().ok()?;
+    let ok = rt.block_on(async {
+        use tokio::io::AsyncWriteExt;
+        let mut f = tokio::fs::File::create(&path).await.ok()?;
+        crate::mrt::dump_table(rid, &tables, &mut f).await.ok()?;
+        f.flush().await.ok()?;
+        f.sync_all().await.ok()?;
+        Some(())
+    });
+    let bytes = std::fs::read(&path).ok();
+    let _ = std::fs::remove_file(&path);
+    ok?;
+    let mut bytes = bytes?;
+    if !zero_td_times(&mut bytes) {
+        // leave the bytes as they are: the oracle will say what is wrong with them
+    }
+    let npeers = {
+        let mut v: Vec<IpAddr> = vec![];
+        for c in c4.iter().chain(c6.iter()) {
+            for p in &c.paths {
+                if !v.contains(&p.src.remote_addr) {
+                    v.push(p.src.remote_addr);
+                }
+            }
+        }
+        v.len()
+    };
+    let tags = vec![
+        Term::atom("ev-dump"),
+        Term::atom(format!("dpeers-{}", npeers.min(4))),
+        Term::atom(format!("dchg4-{}", c4.len().min(3))),
+        Term::atom(format!("dchg6-{}", c6.len().min(3))),
+    ];
+    Some(Built { term, real: Real::Raw(bytes), embs: vec![], tags })
+}
+
+// ------------------------------------------------------------------ flush_peer_snapshot
+fn build_flush(a: &[Term]) -> Option<Built> {
+    let (peer_addr, peer_asn, peer_id) = peer_of(&a[0])?;
+    let upts = u32_of(&a[1])?;
+    let post = a[2].as_bool()?;
+    let mut changes = vec![];
+    for c in a[3].tagged("chgs")? {
+        changes.push(change_of(c.tagged("chg")?)?);
+    }
+    // BmpClient::serve: `flush_peer_snapshot(&mut snapshot, *addr, peer_header, 0)` resp.
+    // `(&mut snapshot_post, *addr, &peer_header.clone().with_post_policy(), PEER_FLAG_POST_POLICY)`,
+    // peer_header as built by Peer::bmp_peer_up
+    let peer_header = bmp::PerPeerHeader::new(0, peer_asn, Ipv4Addr::from(peer_id), 0, peer_addr, upts);
+    let (hdr, flags) = if post { (peer_header.with_post_policy(), bmp::Message::PEER_FLAG_POST_POLICY) } else { (peer_header, 0) };
+    let msgs = crate::bmp::verif_c19_bmp::flush(changes, peer_addr, &hdr, flags);
+    // canonical order (the real one is hash order): route messages by (family, NLRI bytes, path id), then the
+    // End-of-RIB messages by family; the real list must already have every route before every End-of-RIB
+    let mut routes: Vec<((u64, Vec<u8>, u32), bmp::Message)> = vec![];
+    let mut eors: Vec<(u64, bmp::Message)> = vec![];
+    for m in msgs {
+        let key = match &m {
+            bmp::Message::RouteMonitoring { update: bgp::Message::Update(bgp::Update::Reach { family, entries, .. }), .. } if entries.len() == 1 => {
+                if !eors.is_empty() {
+                    panic!("route after end-of-rib");
+                }
+                Ok((fam_num(*family), entries[0].nlri.encode_to_bytes(), entries[0].path_id))
+            }
+            bmp::Message::RouteMonitoring { update: bgp::Message::Update(bgp::Update::EndOfRib(family)), .. } => Err(fam_num(*family)),
+            _ => panic!("unexpected message from flush_peer_snapshot"),
+        };
+        match key {
+            Ok(k) => routes.push((k, m)),
+            Err(f) => eors.push((f, m)),
+        }
+    }
+    routes.sort_by(|x, y| x.0.cmp(&y.0));
+    eors.sort_by(|x, y| x.0.cmp(&y.0));
+    let mut embs_t = vec![];
+    let mut embs = vec![];
+    let mut reals = vec![];
+    for m in routes.into_iter().map(|x| x.1).chain(eors.into_iter().map(|x| x.1)) {
+        let bmp::Message::RouteMonitoring { update, addpath, .. } = &m else { unreachable!() };
+        let e = standalone(&[update], *addpath);
+        embs_t.push(emb_term(&e));
+        if let Some(e) = e {
+            embs.push((*addpath, e));
+        }
+        reals.push(Real::Bmp(m));
+    }
+    let tags = vec![Term::atom("ev-flush"), Term::atom(if post { "post" } else { "pre" }), Term::atom(format!("fmsgs-{}", reals.len().min(4)))];
+    let term = Term::tag("ev-flush", vec![a[0].clone(), a[1].clone(), a[2].clone(), a[3].clone(), Term::tag("embs", embs_t)]);
+    Some(Built { term, real: Real::Many(reals), embs, tags })
+}
+
+fn run_dcase(line: &str) -> String {
+    run_case_with(line, "dcase", "items", &build_item)
+}
+
+// ------------------------------------------------------------------ generator
+fn g_src(r: &mut Rng) -> Term {
+    let v6 = r.chance(1, 2);
+    Term::tag(
+        "src",
+        vec![
+            g_ip(r, v6),
+            g_ip(r, v6),
+            Term::nat(*r.pick(&ASNS)),
+            Term::nat(*r.pick(&ASNS)),
+            Term::nat(u32::from_be_bytes(pick_v4(r))),
+        ],
+    )
+}
+
+/// (FAM AP NLRIS ATTRS NH) taken from a generated packet-level UPDATE content
+fn g_change_parts(r: &mut Rng, big: bool) -> Option<(Term, Term, Term, Term, Term)> {
+    let u = g_update(r, big);
+    let l = u.as_list()?;
+    let ap = Term::atom(if r.chance(1, 3) { "t" } else { "f" });
+    match l[0].as_atom()? {
+        "reach" => Some((l[1].clone(), ap, l[2].clone(), l[4].clone(), l[3].clone())),
+        "unreach" => Some((l[1].clone(), ap, l[2].clone(), Term::atom("none"), Term::atom("none"))),
+        _ => None,
+    }
+}
+
+fn g_peer(r: &mut Rng) -> Term {
+    let v6 = r.chance(1, 2);
+    Term::tag("peer", vec![g_ip(r, v6), Term::nat(*r.pick(&ASNS)), Term::nat(u32::from_be_bytes(pick_v4(r)))])
+}
+
+
+fn g_srcs(r: &mut Rng, n: usize) -> Vec<Term> {
+    // distinct peer addresses
+    let mut v: Vec<Term> = vec![];
+    let mut guard = 0;
+    while v.len() < n && guard < 50 {
+        guard += 1;
+        let s = g_src(r);
+        let addr = s.as_list().unwrap()[1].clone();
+        if !v.iter().any(|x| x.as_list().unwrap()[1] == addr) {
+            v.push(s);
+        }
+    }
+    v
+}
+
+fn g_dump(r: &mut Rng) -> Term {
+    let np = if r.chance(1, 10) { 0 } else { 1 + r.below(4) as usize };
+    let srcs = g_srcs(r, np);
+    let mut mk = |v6: bool, r: &mut Rng| -> Vec<Term> {
+        let mut out: Vec<Term> = vec![];
+        if srcs.is_empty() {
+            return out;
+        }
+        let n = r.below(4);
+        for i in 0..n {
+            let (mask, addr) = if v6 {
+                (*r.pick(&[0u8, 32, 48, 64, 128]), {
+                    let mut a = v6s(0);
+                    a[5] = i as u8;
+                    a.to_vec()
+                })
+            } else {
+                (*r.pick(&[0u8, 8, 24, 25, 32]), vec![10, i as u8, r.below(2) as u8, 0])
+            };
+            let pfx = Term::tag("pfx", vec![Term::nat(mask), Term::bytes(&addr)]);
+            if out.iter().any(|c: &Term| c.as_list().unwrap()[0] == pfx) {
+                continue;
+            }
+            let k = 1 + r.below(srcs.len().min(3) as u64) as usize;
+            let mut l = vec![pfx];
+            let start = r.below(srcs.len() as u64) as usize;
+            for j in 0..k {
+                let s = srcs[(start + j) % srcs.len()].clone();
+                let mixed = r.chance(1, 10);
+                l.push(Term::tag("path", vec![s, g_nh(r, v6 != mixed), Term::list(g_attrs(r, 0))]));
+            }
+            out.push(Term::list(l));
+        }
+        out
+    };
+    let c4 = mk(false, r);
+    let c6 = mk(true, r);
+    Term::tag("ev-dump", vec![Term::bytes(&pick_v4(r)), Term::tag("chg4", c4), Term::tag("chg6", c6)])
+}
+
+fn g_flush(r: &mut Rng) -> Term {
+    let peer = g_peer(r);
+    let pa = peer.as_list().unwrap();
+    let v6peer = pa[1].as_list().unwrap()[0].as_atom() == Some("v6");
+    let mine = Term::tag("src", vec![pa[1].clone(), g_ip(r, v6peer), pa[2].clone(), Term::nat(*r.pick(&ASNS)), pa[3].clone()]);
+    let n = r.below(7);
+    let mut chgs = vec![];
+    for _ in 0..n {
+        let v6 = r.chance(1, 2);
+        let fam = Term::nat(fam_num(if v6 { Family::IPV6 } else { Family::IPV4 }));
+        let k = 1 + r.below(3);
+        let nl: Vec<Term> = (0..k)
+            .map(|_| {
+                let b = if v6 { vec![48, 0x20, 0x01, 0x0d, 0xb8, 0, r.below(3) as u8] } else { vec![24, 10, 0, r.below(3) as u8] };
+                Term::list(vec![Term::nat(r.below(2)), Term::bytes(&b)])
+            })
+            .collect();
+        let src = if r.chance(1, 5) { g_src(r) } else { mine.clone() };
+        let ap = Term::atom(if r.chance(1, 3) { "t" } else { "f" });
+        let (at, nh) = if r.chance(1, 3) { (Term::atom("none"), Term::atom("none")) } else { (Term::list(g_attrs(r, 0)), g_nh(r, v6)) };
+        chgs.push(Term::tag("chg", vec![src, fam, ap, Term::list(nl), at, nh, Term::nat(*r.pick(&TSS))]));
+    }
+    Term::tag(
+        "ev-flush",
+        vec![peer, Term::nat(*r.pick(&TSS)), Term::atom(if r.chance(1, 2) { "t" } else { "f" }), Term::tag("chgs", chgs), Term::tag("embs", vec![])],
+    )
+}
+
+fn g_item(r: &mut Rng, big: bool) -> Term {
+    loop {
+        // half of the items are plain packet-level records (all kinds), half are daemon events
+        match r.below(20) {
+            0 | 1 => {
+                let Some((fam, ap, nl, at, nh)) = g_change_parts(r, big) else { continue };
+                if nl.as_list().map(|x| x.is_empty()).unwrap_or(true) {
+                    continue;
+                }
+                return Term::tag("ev-rm", vec![Term::atom(if r.chance(1, 2) { "t" } else { "f" }), g_src(r), fam, ap, nl, at, nh, Term::nat(*r.pick(&TSS)), q()]);
+            }
+            2 => {
+                let Some((fam, ap, nl, at, nh)) = g_change_parts(r, false) else { continue };
+                let Some(first) = nl.as_list().and_then(|x| x.first().cloned()) else { continue };
+                return Term::tag("ev-out", vec![Term::atom(if r.chance(1, 2) { "t" } else { "f" }), g_peer(r), fam, ap, first, at, nh, Term::nat(*r.pick(&TSS)), q()]);
+            }
+            3 => {
+                let Some((fam, _ap, nl, at, nh)) = g_change_parts(r, false) else { continue };
+                let Some(first) = nl.as_list().and_then(|x| x.first().cloned()) else { continue };
+                let net = first.as_list().unwrap()[1].clone();
+                return Term::tag("ev-loc", vec![fam, net, at, nh, Term::nat(*r.pick(&TSS)), Term::bytes(&pick_v4(r)), Term::nat(*r.pick(&ASNS)), q()]);
+            }
+            4 | 5 => {
+                let Some((fam, ap, nl, at, nh)) = g_change_parts(r, big) else { continue };
+                if nl.as_list().map(|x| x.is_empty()).unwrap_or(true) {
+                    continue;
+                }
+                return Term::tag("ev-mrt", vec![g_src(r), fam, ap, nl, at, nh, Term::nat(*r.pick(&TSS)), q()]);
+            }
+            6 => {
+                let reason = match r.below(7) {
+                    0 => Term::atom("none"),
+                    1 => Term::atom("hold"),
+                    2 => Term::atom("fsm"),
+                    3 => Term::atom("admin"),
+                    4 => Term::atom("io"),
+                    5 => Term::tag("remote", vec![g_notif(r)]),
+                    _ => Term::tag("local", vec![g_notif(r)]),
+                };
+                let up: u64 = if r.chance(1, 6) { (1u64 << 32) + 5 } else { *r.pick(&TSS) as u64 };
+                return Term::tag("ev-down", vec![g_peer(r), Term::nat(up), reason, q()]);
+            }
+            7 => return g_dump(r),
+            8 => return g_flush(r),
+            9 if r.chance(1, 2) => return g_dump(r),
+            _ => return g_rec(r, big),
+        }
+    }
+}
+
+fn gen_cases(seed: u64, n: usize, tier: &str, out: &str) {
+    use std::io::Write;
+    let mut f = std::io::BufWriter::new(std::fs::File::create(out).expect("create gen output"));
+    let mut r = Rng(seed.wrapping_mul(1000003).wrapping_add(1919));
+    let big = tier == "thorough";
+    let mut i = 0;
+    while i < n {
+        let items: Vec<Term> = if r.chance(1, 8) {
+            g_td(&mut r, big) // a packet-level TABLE_DUMP_V2 sequence
+        } else {
+            let k = 1 + r.below(4);
+            (0..k).map(|_| g_item(&mut r, big)).collect()
+        };
+        let done = catch_unwind(AssertUnwindSafe(|| complete_with("dcase", "items", &items, &build_item)));
+        if let Ok(Some((c, _))) = done {
+            // the canonical case must reproduce itself (dump order depends on the table's own ordering)
+            let line = c.to_string();
+            let again = catch_unwind(AssertUnwindSafe(|| run_dcase(&line))).unwrap_or_else(|_| "(panic)".into());
+            if again == "(bad-case)" {
+                continue;
+            }
+            writeln!(f, "{}", line).unwrap();
+            i += 1;
+        }
+    }
+    f.flush().unwrap();
+}
+
+#[test]
+fn verif_main() {
+    let (Ok(prop), Ok(inp), Ok(out)) = (std::env::var("VERIF_PROP"), std::env::var("VERIF_IN"), std::env::var("VERIF_OUT")) else {
+        return; // not invoked by /verif/check
+    };
+    if prop != "C19" {
+        return;
+    }
+    std::panic::set_hook(Box::new(|_| {}));
+    if std::env::var("VERIF_MODE").as_deref() == Ok("gen") {
+        let seed: u64 = std::env::var("VERIF_SEED").ok().and_then(|s| s.parse().ok()).unwrap_or(1);
+        let n: usize = std::env::var("VERIF_N").ok().and_then(|s| s.parse().ok()).unwrap_or(100);
+        let tier = std::env::var("VERIF_TIER").unwrap_or_else(|_| "quick".into());
+        gen_cases(seed, n, &tier, &out);
+    } else if std::env::var("VERIF_MODE").as_deref() == Ok("mk") {
+        // complete hand-written cases (EMB fields `?`, empty tbl): comment lines are copied
+        use std::io::{BufRead, Write};
+        let mut f = std::io::BufWriter::new(std::fs::File::create(&out).expect("create output"));
+        for line in std::io::BufReader::new(std::fs::File::open(&inp).expect("open input")).lines() {
+            let line = line.unwrap();
+            if line.trim().is_empty() || line.starts_with(';') {
+                writeln!(f, "{}", line).unwrap();
+                continue;
+            }
+            let done = Term::parse(&line).and_then(|t| {
+                let (head, key): (&str, &str) = if t.tagged("dcase").is_some() { ("dcase", "items") } else { ("case", "recs") };
+                let a = t.tagged(head)?.to_vec();
+                let recs = a.last()?.tagged(key)?.to_vec();
+                complete_with(head, key, &recs, &build_item).map(|x| x.0)
+            });
+            match done {
+                Some(c) => writeln!(f, "{}", c).unwrap(),
+                None => writeln!(f, "; cannot build: {}", line).unwrap(),
+            }
+        }
+        f.flush().unwrap();
+    } else {
+        sexp::run_lines(&inp, &out, |l| {
+            let l = l.to_string();
+            catch_unwind(AssertUnwindSafe(|| {
+                if l.starts_with("(dcase") { run_dcase(&l) } else { run_case(&l) }
+            }))
+            .unwrap_or_else(|_| "(panic)".into())
+        });
+    }
+    let _ = std::panic::take_hook();
+}
